@@ -65,3 +65,13 @@ Definition excl (s : sys) : Prop :=
   forall t, (exists h rest, nth_error (threads s) t = Some (Holding h rest)) <-> lock s = Some t.
 
 End Lock.
+
+(** Executable instance used by the correspondence run: the disk and the handle are a counter,
+    Open reads it, a session adds one and Syncs. *)
+Definition counter_load (d : Z) : option Z := Some d.
+Definition counter_store (h : Z) (_ : Z) : Z := h.
+Definition counter_session : list (sop Z) := [Modify Z (fun h => (h + 1)%Z); SyncOp Z].
+Definition counter_final (threads_n rounds : nat) (sched : list nat) : Z :=
+  (* [rounds] sessions per thread are modelled as threads_n*rounds one-session threads *)
+  disk Z Z (run Z Z counter_load counter_store
+              (mkSys Z Z 0%Z None (repeat (Idle Z counter_session) (threads_n * rounds))) sched).
